@@ -6,6 +6,8 @@ from checklib.core import *
 from checklib.runner import load_prop as load
 pid = sys.argv[1]; tier = sys.argv[2] if len(sys.argv) > 2 else "quick"
 mod = load(pid)
+import subprocess
+subprocess.run(["cargo", "build", "--release", "--offline"], cwd="/verif/harness", capture_output=True)   # always run against the current /repo
 sess = Session(pid, 1, tier)
 try:
     mod.generate(sess)
